@@ -36,5 +36,6 @@ def run(tier, seed):
                            "a2L": [core.dy(e["a2L"]) for e in es], "unc2L": [core.dy(e["unc2L"]) for e in es]})
     cx.assumptions += ["constants C1 = 5/2, C2 = 3/10 of Trace_C07.tla: 10 x maxima observed on the unchanged tree",
                        "corrections are measured against the sum of magnitudes of the individual terms"]
+    cx.selftest_corruption("Trace_C07.tla", shards[0], lambda ev: ev["a1L"] if ev["e"] == "Scaled" and ev["k"] == 4 and ev["exc"] == "" else None, "Decouple", every=True)
     return cx.finish(rule="base points per TLC-enumerated class (Cases.tla: C07Cases), each scaled by k = 1..64; "
                           "evaluations = models built; distinct_nontrivial = families whose 7 members were all built")
